@@ -344,7 +344,7 @@ def run(ck):
     crf = gu.func('collect_residues')
     ck.analysed(gu, crf)
     lp = [n for n in crf.body if isinstance(n, ast.For)]
-    ok = len(lp) == 1 and u(lp[0].iter) == 'graph' and 'key = get_attrs(graph.nodes[node_idx], attrs=attrs)' in u(lp[0]) and 'residues[key].add(node_idx)' in u(lp[0]) \
+    ok = len(lp) == 1 and u(lp[0].iter) == 'graph' and 'key = get_attrs(graph.nodes[node_idx], attrs)' in u(lp[0]) and 'residues[key].add(node_idx)' in u(lp[0]) \
         and not any(isinstance(n, (ast.If, ast.Continue)) for n in ast.walk(lp[0]))
     ck.ob('PROV-partition', gu.loc(crf), ok, 'collect_residues puts every node into the group of its own key, unconditionally (a partition of all atoms)', key='PROV-partition|collect_residues')
     shared.truthy_zero(ck, [MB, 'vermouth/graph_utils.py'])
